@@ -264,11 +264,15 @@ const GO_TIMED: &str = "go wtime 100000 btime 100000 winc 1000 binc 1000";
 
 pub fn sigma() -> Vec<Cmd> {
     let mut v: Vec<Cmd> = POSITIONS.iter().map(|p| c(p)).collect();
+    // finished games: a checkmate reached by moves, a stalemate given as FEN
+    v.push(c("position startpos moves f2f3 e7e5 g2g4 d8h4"));
+    v.push(c("position fen 7k/5Q2/6K1/8/8/8/8/8 b - - 0 1"));
     v.push(c("go"));
     v.push(go(GO_TIMED, 40));
     v.push(c("ucinewgame"));
     v.push(c("isready"));
     v.push(c("setoption name DebugLogLevel value None"));
+    v.push(c("setoption name DebugLogLevel value Info"));
     v.push(c("setoption name Hash value 16"));
     v.push(c("stop"));
     v.push(c("debug on"));
@@ -499,7 +503,9 @@ pub fn run_c17(rep: &Report) -> i32 {
     require_binaries();
     let quick = rep.quick();
     // base alphabet: well-formed commands
-    let base: Vec<Cmd> = vec![c(POSITIONS[0]), c(POSITIONS[1]), c(POSITIONS[4]), c("go"), go(GO_TIMED, 30), c("isready"), c("ucinewgame"), c("setoption name DebugLogLevel value None")];
+    // includes the option the handshake advertises with both of its values: with logging on, the log
+    // macros evaluate their arguments, which they do not while it is off
+    let base: Vec<Cmd> = vec![c(POSITIONS[0]), c(POSITIONS[1]), c(POSITIONS[4]), c("go"), go(GO_TIMED, 30), c("isready"), c("ucinewgame"), c("setoption name DebugLogLevel value None"), c("setoption name DebugLogLevel value Info")];
     let l = if quick { 2 } else { 3 };
     let mut sessions: Vec<Vec<Cmd>> = vec![Vec::new()];
     let mut level: Vec<Vec<Cmd>> = vec![Vec::new()];
@@ -612,7 +618,7 @@ pub fn run_c17(rep: &Report) -> i32 {
     rep.sample(J::obj().set("session", J::strs(&["position startpos", "xyzzy 1 2 3", "go", "isready"])).set("checked", J::s("no output for the unknown line, state unchanged across it, same replies as without it, readyok")));
     rep.sample(J::obj().set("session", J::strs(&["position startpos", "go wtime 100000 ..."])).set("end", J::s("stdin closed directly after go")).set("checked", J::s("process exits within 3 s")));
     rep.assume("a process still alive 3 s after its input was closed (2 s after quit) is spinning; the limit is load-tolerant on this machine (sessions take milliseconds)");
-    let rule = format!("every session of length <= {} over 8 well-formed commands; each of {} unknown/garbage lines inserted at every position of every such session; quit and end-of-input after every session on the hooks-on binary and end-of-input on the hooks-off binary", l, GARBAGE.len());
+    let rule = format!("every session of length <= {} over 9 well-formed commands (both values of the advertised logging option included); each of {} unknown/garbage lines inserted at every position of every such session; quit and end-of-input after every session on the hooks-on binary and end-of-input on the hooks-off binary", l, GARBAGE.len());
     let n = garbage_runs.load(Ordering::Relaxed) + lifecycle_runs.load(Ordering::Relaxed) + sessions.len() as u64;
     rep.finish(sessions.len() as u64, n, lifecycle_runs.load(Ordering::Relaxed) / 3, true, &rule)
 }
@@ -669,6 +675,64 @@ pub fn c10_sessions(rep: &Report) -> (u64, u64) {
         }
     });
     (sessions.len() as u64, total_cmds.load(Ordering::Relaxed))
+}
+
+/// C04 in session context: whatever preceded it in the session, a position command leaves the engine
+/// holding exactly the position the rules give (read from the loop state dump).
+pub fn c04_sessions(rep: &Report, commands: &[String]) -> (u64, u64) {
+    require_binaries();
+    let h = crate::zobrist::ZobristHasher::create_zobrist_hasher();
+    let others = [POSITIONS[3], POSITIONS[1]];
+    let mut sessions: Vec<(Vec<Cmd>, usize)> = Vec::new(); // (session, index of the command under test)
+    for (i, p) in commands.iter().enumerate() {
+        let p = c(p);
+        sessions.push((vec![p.clone()], i));
+        sessions.push((vec![p.clone(), c("go"), p.clone()], i));
+        sessions.push((vec![p.clone(), p.clone()], i));
+        sessions.push((vec![p.clone(), go(GO_TIMED, 25), c("ucinewgame"), p.clone()], i));
+        sessions.push((vec![c(others[i % 2]), c("go"), p.clone()], i));
+        sessions.push((vec![p.clone(), c("go"), c(others[(i + 1) % 2]), c("go"), p.clone()], i));
+    }
+    let total = AtomicU64::new(0);
+    run_parallel(sessions.len(), |j| {
+        let (s, ci) = &sessions[j];
+        total.fetch_add(s.len() as u64, Ordering::Relaxed);
+        let o = run_session(s, &default_opts());
+        let lines: Vec<String> = s.iter().map(|c| c.line.clone()).collect();
+        if o.timed_out || o.states.len() != s.len() {
+            rep.fail("C08", "session-hangs", format!("{:?}", lines), session_json(s));
+            return;
+        }
+        let want = match pos_of_command(&commands[*ci]) {
+            Some(p) => p,
+            None => return,
+        };
+        let st = last_state(&o);
+        let field = |name: &str| -> String { st.split(' ').find_map(|t| t.strip_prefix(&format!("{}=", name)).map(|x| x.to_string())).unwrap_or_default() };
+        // expected dump fields from the oracle's position
+        let mut sq = String::new();
+        for r in (0..8).rev() {
+            for f in 0..8 {
+                let p = want.b[(r * 8 + f) as usize];
+                sq.push(if p == 0 { '.' } else { rules::piece_char(p) });
+            }
+        }
+        let rights = format!("{}{}{}{}", if want.rights & rules::WK != 0 { "K" } else { "-" }, if want.rights & rules::WQ != 0 { "Q" } else { "-" }, if want.rights & rules::BK != 0 { "k" } else { "-" }, if want.rights & rules::BQ != 0 { "q" } else { "-" });
+        let ep = want.ep.map(|e| { let p = crate::bridge::point_of_sq(e); format!("{}.{}", p.0, p.1) }).unwrap_or("-".into());
+        let key = crate::bridge::scratch_key(&want, &h).to_string();
+        let stm = if want.stm == rules::WHITE { "w" } else { "b" };
+        let mut diffs = Vec::new();
+        for (name, w) in [("sq", sq.as_str()), ("stm", stm), ("rights", rights.as_str()), ("ep", ep.as_str()), ("key", key.as_str())] {
+            if field(name) != w {
+                diffs.push(format!("{} is {} but the rules give {}", name, field(name), w));
+            }
+        }
+        if !diffs.is_empty() {
+            let context = if s.len() == 1 { "alone".to_string() } else { format!("after-{}", s[s.len() - 2].line.split(' ').next().unwrap_or("")) };
+            rep.fail("C04", &format!("position-command-in-session/{}", context), format!("session {:?}: after the last position command {}", lines, diffs.join("; ")), session_json(s));
+        }
+    });
+    (sessions.len() as u64, total.load(Ordering::Relaxed))
 }
 
 /// C15: the command-line front end prints the error and exits normally
